@@ -172,6 +172,10 @@ func legC19(e *Engine) []Violation {
 						bad = fmt.Sprintf("storage failing from read %d (Load used %d): call %d `%s` -> %s", k, loadReads, j, strings.Join(qs[j], " "), a)
 						break
 					}
+					if j < len(healthy) && !faultConsistent(healthy[j], a) {
+						bad = fmt.Sprintf("storage failing from read %d (Load used %d): call %d `%s` answered without an error but differently from the healthy run\n  healthy: %s\n  faulty:  %s", k, loadReads, j, strings.Join(qs[j], " "), healthy[j], a)
+						break
+					}
 				}
 				if bad == "" && k == total {
 					for j := range ans {
@@ -203,6 +207,44 @@ func legC19(e *Engine) []Violation {
 	e.count("fault-points", int(points))
 	e.count("fault-points-inside-read-calls", int(inCall))
 	return vs
+}
+
+// faultConsistent: under storage faults an answer must be the healthy answer, an error, or an
+// emptier result - never different data without an error.  Iterator scripts are compared token by
+// token (after an error, later calls on the same iterator may say err, nil, or the right posting).
+func faultConsistent(healthy, got string) bool {
+	if got == healthy || strings.HasPrefix(got, "err") || strings.HasPrefix(got, "parse-err") || strings.HasPrefix(got, "segerr") {
+		return true
+	}
+	ht, gt := strings.Fields(healthy), strings.Fields(got)
+	hasErr := false
+	for _, t := range gt {
+		if t == "err" {
+			hasErr = true
+		}
+	}
+	if hasErr {
+		for i, t := range gt {
+			if t == "err" || t == "nil" || strings.HasPrefix(t, "cnt=") || strings.HasPrefix(t, "icnt=") {
+				continue
+			}
+			if i >= len(ht) || ht[i] != t {
+				return false
+			}
+		}
+		return true
+	}
+	// no error reported: every part must be empty or the healthy part
+	hp, gp := strings.Split(healthy, " | "), strings.Split(got, " | ")
+	if len(hp) != len(gp) {
+		return got == ""
+	}
+	for i := range gp {
+		if strings.TrimSpace(gp[i]) != "" && gp[i] != hp[i] {
+			return false
+		}
+	}
+	return true
 }
 
 // ---------- C12: failing writer, cancelled merge ----------
@@ -597,11 +639,31 @@ func legC15(e *Engine) []Violation {
 	parallel(ncase, func(i int) {
 		r := NewRng(e.seed, "C15", uint64(i))
 		cb := newCaseBuilder(caseID("C15", e.seed, i), r)
-		final, _ := cb.genMergePlan("tiny", false)
-		for s := 0; s <= final; s++ {
-			cb.observeAll(s)
+		var final int
+		if i%20 == 7 {
+			// segments with different numbers of 1024-document doc-value chunks, larger first
+			cb.u.dvOK[string(cb.u.fields[0])] = true
+			cb.u.dvAll = true
+			if len(cb.u.terms) > 4 {
+				cb.u.terms = cb.u.terms[:4]
+			}
+			d1 := cb.u.genBatch(r, r.Range(1025, 2300), docOpts{maxInst: 2, maxTerms: 2}, "a")
+			d2 := cb.u.genBatch(r, r.Range(1, 900), docOpts{maxInst: 2, maxTerms: 2}, "b")
+			s1 := cb.addBuild(d1, 1025, "pub")
+			s2 := cb.addBuild(d2, 1025, "pub")
+			final = s2
+			for _, sg := range []int{s1, s2} {
+				cb.q("dv", itoa(sg), hxList(cb.u.fields), intList(cb.sampleDocs(cb.n[sg], 30)))
+				cb.q("fields", itoa(sg))
+				cb.q("stored", itoa(sg), "0", "-1")
+			}
+		} else {
+			final, _ = cb.genMergePlan("tiny", false)
+			for s := 0; s <= final; s++ {
+				cb.observeAll(s)
+			}
+			cb.iterQueries(r.Intn(final+1), 10)
 		}
-		cb.iterQueries(r.Intn(final+1), 10)
 		c := cb.c
 		w := BuildWorld(c)
 		defer w.Close()
